@@ -32,6 +32,9 @@ REP = ["UTC", "America/New_York", "America/St_Johns", "America/Sao_Paulo", "Amer
        "Australia/Adelaide", "Australia/Sydney", "Australia/Eucla", "Pacific/Chatham", "Pacific/Auckland", "Pacific/Kiritimati",
        "Pacific/Pago_Pago", "Pacific/Honolulu", "Pacific/Apia", "Atlantic/Azores", "America/Anchorage", "America/Phoenix",
        "+0530", "-1200", "+1400", "UTC+05:45", "-0330", "EST", "JST", "ACST"]
+# offsets (seconds) from a zone's own UTC transition instant: the instant W used by the dst-transitions sub-space
+DST_DELTAS = [-90000, -46800, -36000, -10800, -3660, -1, 0, 1, 3660, 10800, 36000, 46800, 90000]
+DST_YEARS = (2020, 2021, 2022)
 TZENVS = ["UTC", "America/New_York", "Asia/Kolkata", "Australia/Lord_Howe"]
 _Z = None
 
@@ -94,10 +97,22 @@ class _Fixed(tzinfo):
         return dt.replace(tzinfo=self)
 
 
+_TR = {}
+
+
+def transitions(zone):
+    """UTC transition instants of a tz-database zone in DST_YEARS (read from pytz's table)."""
+    if zone not in _TR:
+        z = pytz.timezone(zone)
+        _TR[zone] = [t for t in getattr(z, "_utc_transition_times", []) if t.year in DST_YEARS]
+    return _TR[zone]
+
+
 def spaces(tier, seed):
     T = tier == "thorough"
     pz, lib = zone_names()
     allz = pz + sorted(lib)
+    dstz = [z for z in (pz if T else REP) if z in pytz.all_timezones_set and transitions(z)]
     sp = [
         Product("every-zone-as-TIMEZONE", {"A": allz, "B": [None, "UTC", "Asia/Kathmandu"], "w": range(len(LOCALS)), "form": FORMS,
                                            "aware": AWARE, "tzenv": ["UTC"]}),
@@ -112,6 +127,10 @@ def spaces(tier, seed):
         Product("local-process-zone", {"tzenv": TZENVS, "A": ["local", None], "B": [None, "UTC", "Asia/Tokyo", "America/New_York"],
                                        "w": range(len(LOCALS)), "form": FORMS, "aware": AWARE}),
     ]
+    sp.append(Product("dst-transitions", {"A": dstz, "t": range(2 * len(DST_YEARS)), "d": DST_DELTAS, "B": [None, "UTC", "Asia/Kathmandu"],
+                                          "form": FORMS, "aware": [None, True], "tzenv": ["UTC"]},
+                      note="instants around every clock change of the zone itself in %s (wall times in the gap or the repeated hour are skipped for the "
+                           "forms that write a wall time; the timestamp form writes the instant)" % (DST_YEARS,)))
     if T:
         sp.append(Product("all-pairs", {"A": pz, "B": pz, "w": [5, 7], "form": ["absolute"], "aware": [True], "tzenv": ["UTC"]}))
         years = [datetime(y, m, d, 12, 34, 56) for y in range(1950, 2038) for (m, d) in ((1, 15), (3, 28), (7, 1), (10, 30))]
@@ -141,8 +160,18 @@ def run_case(sub, c):
 
 
 def _run(sub, c):
-    W = c["xw"] if "xw" in c else LOCALS[c["w"]]
     A, B, form, aware = c["A"], c["B"], c["form"], c["aware"]
+    if sub == "dst-transitions":
+        tr = transitions(A)
+        if c["t"] >= len(tr):
+            return None
+        u = tr[c["t"]] + timedelta(seconds=c["d"])          # naive UTC instant
+        if form == "timestamp":
+            W = u                                            # the timestamp form writes the instant
+        else:
+            W = pytz.utc.localize(u).astimezone(pytz.timezone(A)).replace(tzinfo=None)   # that instant's wall time in A
+    else:
+        W = c["xw"] if "xw" in c else LOCALS[c["w"]]
     a_name = c["tzenv"] if A in ("local", None) else A
     za = ref_zone(a_name)
     st = {}
